@@ -229,6 +229,65 @@ def diag_labels():
     return out
 
 
+CONTAINER_ORIGIN = {"hashbrown": "hashbrown", "indexmap": "indexmap", "ustr": "ustr", "std::collections": "std",
+                    "std": "std", "roaring": "roaring"}
+ORDER_BEARING = ("HashMap", "HashSet", "IndexMap", "IndexSet", "BTreeMap", "BTreeSet", "UstrMap", "UstrSet", "RoaringBitmap")
+
+
+def nondet_inventory():
+    """(containers, runtime_reads, env_names, versions): every `use` of an order-bearing container type per file with
+    its origin crate, every fully qualified std hash container, every read of the run-time environment / clock /
+    thread id / pointer formatting / RNG in src/*.rs, the environment names mentioned anywhere, crate versions."""
+    src_dir = os.path.join(REPO, "src")
+    containers, reads, env_names = [], [], set()
+    for fn in sorted(os.listdir(src_dir)):
+        if not fn.endswith(".rs"):
+            continue
+        text = read("src/" + fn)
+        # strip line comments so that prose does not count
+        code = re.sub(r"//[^\n]*", "", text)
+        for m in re.finditer(r"^\s*(?:pub\s+)?use\s+([\w:]+)::(\{[^}]*\}|\w+)\s*;", code, re.M):
+            path, items = m.group(1), m.group(2)
+            names = re.findall(r"[\w:]+", items)
+            for nm in names:
+                full = path + "::" + nm
+                base = nm.split("::")[-1]
+                if base in ORDER_BEARING:
+                    if "collections" in full and base.startswith("Hash"):
+                        origin = "std-hash"
+                    elif "collections" in full:
+                        origin = "std-btree"
+                    else:
+                        origin = full.split("::")[0]
+                    containers.append((fn, base, origin))
+        for m in re.finditer(r"std::collections::(HashMap|HashSet)|collections::hash_map|hash::RandomState|RandomState::new", code):
+            containers.append((fn, m.group(0), "std-hash"))
+        for pat, what in ((r"env::var(?:_os)?\s*\(", "env::var"), (r"env::vars(?:_os)?\s*\(", "env::vars"),
+                          (r"SystemTime|Instant::now|chrono::", "clock"), (r"thread::current|process::id\s*\(", "thread/process id"),
+                          (r"\{:p\}", "pointer formatting"), (r"thread_rng|rand::|getrandom", "rng")):
+            for m in re.finditer(pat, code):
+                reads.append((fn, what))
+        for m in re.finditer(r"(?:env!|option_env!|env::var(?:_os)?)\s*\(\s*\"([A-Za-z_][A-Za-z0-9_]*)\"", code):
+            env_names.add(m.group(1))
+    try:
+        for m in re.finditer(r"(?:env!|option_env!|env::var(?:_os)?)\s*\(\s*\"([A-Za-z_][A-Za-z0-9_]*)\"", read("build.rs")):
+            env_names.add(m.group(1))
+    except OSError:
+        pass
+    lock = read("Cargo.lock")
+    versions = []
+    for crate in ("hashbrown", "ahash", "indexmap", "ustr"):
+        for m in re.finditer(r'name = "%s"\nversion = "([^"]+)"' % crate, lock):
+            versions.append((crate, m.group(1)))
+    m = re.search(r'^hashbrown\s*=\s*(?:"([^"]+)"|\{[^}]*version\s*=\s*"([^"]+)")', read("Cargo.toml"), re.M)
+    if not m:
+        raise Refuse("Cargo.toml: hashbrown requirement not found")
+    versions.append(("hashbrown-direct", m.group(1) or m.group(2)))
+    if not containers:
+        raise Refuse("no container imports found in src/*.rs")
+    return sorted(set(containers)), sorted(set(reads)), sorted(env_names), versions
+
+
 def lean_chain(chain):
     return "[" + ", ".join(f"({lean_char(p)}, {lean_chars(r)})" for p, r in chain) + "]"
 
@@ -252,6 +311,24 @@ def generate():
 
     labels = diag_labels()
     os.makedirs(OUT, exist_ok=True)
+    containers, reads, env_names, versions = nondet_inventory()
+    out = []
+    out.append("/- GENERATED by tools/translate.py from /repo on every run. Do not edit. -/")
+    out.append("namespace Complgen.Gen")
+    out.append("/-- order-bearing container types imported or named in src/*.rs: (file, type, origin) -/")
+    out.append("def containers : List (String × String × String) := [")
+    out.append(",\n".join(f'  ("{f}", "{n}", "{o}")' for f, n, o in containers))
+    out.append("]")
+    out.append("/-- reads of the run-time environment, clock, thread/process ids, pointer formatting, RNG in src/*.rs -/")
+    out.append("def runtimeReads : List (String × String) := [")
+    out.append(",\n".join(f'  ("{f}", "{w}")' for f, w in reads))
+    out.append("]")
+    out.append("/-- versions in Cargo.lock of the crates whose hashers decide iteration order -/")
+    out.append("def lockVersions : List (String × String) := [")
+    out.append(",\n".join(f'  ("{c}", "{v}")' for c, v in versions))
+    out.append("]")
+    out.append("end Complgen.Gen")
+    write("Nondet.lean", "\n".join(out) + "\n")
     out = []
     out.append("/- GENERATED by tools/translate.py from /repo on every run. Do not edit. -/")
     out.append("namespace Complgen.Gen")
